@@ -36,6 +36,7 @@ def evidence(prop, tier, seed, results, violations, known_hits, undecided, bound
     smt_ms = 0.0
     trust = {}
     assumed_ctx = []
+    pinned = set()
     not_decided = []
     known_tags = set((k["unit"], f["tag"]) for k, f in known_hits)
     for r in results:
@@ -77,6 +78,8 @@ def evidence(prop, tier, seed, results, violations, known_hits, undecided, bound
         for k, v in (r.get("trust_scan") or {}).items():
             trust[k] = max(trust.get(k, 0), v)
         assumed_ctx.extend(r.get("ctx", []))
+        for pin in r.get("pins") or []:
+            pinned.add("%s::%s" % (pin["file"], pin["fn"]))
         not_decided.extend(r.get("clauses_not_decided", []))
         units.append({
             "unit": r["unit"], "width": r["width"], "status": r["status"], "template": r.get("tpl"),
@@ -110,6 +113,8 @@ def evidence(prop, tier, seed, results, violations, known_hits, undecided, bound
             "assumed_context": sorted(set(assumed_ctx)),
             "clauses_not_decided": sorted(set(not_decided + notes.get("clauses_not_decided", []))),
             "not_built": notes.get("not_built", []),
+            "pinned_not_under_contract": sorted(pinned),
+            "pinned_explanation": "functions the property depends on that have no contract: their code is pinned by hash; when one changes its unit becomes undecided and the bounded sweep of the real code (replay driver, stated bounds) decides; never counted as proved",
             "bounded": bounded,
             "known_findings_reported": [{"unit": k["unit"], "tag": k["tag"], "what": k["what"]} for k, f in known_hits],
             "undecided": undecided,
